@@ -253,8 +253,13 @@ def r17_3(ctx: Ctx) -> None:
     rb, wb = _fn(ctx, "read_boolean"), _fn(ctx, "write_boolean")
     shifts = [n for n in walk(rb.node) if isinstance(n, ast.AugAssign) and isinstance(n.target, ast.Name) and isinstance(n.op, ast.RShift)]
     mvar = shifts[0].target.id if shifts else "?"
-    resets = [n for n in walk(rb.node) if isinstance(n, ast.Assign) and norm(n.targets[0]) == mvar and isinstance(n.value, ast.Constant) and n.value.value != 0]
-    r_ok = len(resets) == 1 and resets[0].value.value == 0x80 and len(shifts) == 1 and isinstance(shifts[0].value, ast.Constant) and shifts[0].value.value == 1 \
+    def _cv(e):
+        try:
+            return ctx.ce.eval(e, "archiveinfo")
+        except NotConst:
+            return None
+    resets = [n for n in walk(rb.node) if isinstance(n, ast.Assign) and norm(n.targets[0]) == mvar and _cv(n.value) not in (None, 0)]
+    r_ok = len(resets) == 1 and _cv(resets[0].value) == 0x80 and len(shifts) == 1 and isinstance(shifts[0].value, ast.Constant) and shifts[0].value.value == 1 \
         and bool(q.enclosing_loops(rb, shifts[0])) and any(isinstance(n, ast.BinOp) and isinstance(n.op, ast.BitAnd) and mvar in norm(n) for n in walk(rb.node))
     sets = [n for n in walk(wb.node) if isinstance(n, ast.AugAssign) and isinstance(n.op, ast.BitOr) and isinstance(n.target, ast.Subscript)]
     w_ok = len(sets) == 1
@@ -346,7 +351,18 @@ def r17_5(ctx: Ctx) -> None:
     for wname in ("_write_times", "_write_attributes"):
         w = fi.methods[wname]
         trues = [c for c in q.calls(w) if attr_tail(c) == "append" and c.args and isinstance(c.args[0], ast.Constant) and c.args[0].value is True]
-        ctx.floor("R17.5", len(trues), 1, f"defined.append(True) in {wname}")
+        comps = [n for n in walk(w.node) if isinstance(n, ast.Assign) and isinstance(n.value, ast.ListComp) and isinstance(n.value.elt, (ast.Compare, ast.BoolOp, ast.UnaryOp, ast.Call, ast.Name, ast.Subscript))
+                 and "files" in norm(n.value.generators[0].iter)]
+        if not trues and comps:
+            for cpn in comps:
+                atoms_ = cpn.value.elt.values if isinstance(cpn.value.elt, ast.BoolOp) and isinstance(cpn.value.elt.op, ast.And) else [cpn.value.elt]
+                none_tests = [a for a in atoms_ if q.is_none_test(a) is not None and not q.is_none_test(a)[1]]
+                truthy = [a for a in atoms_ if not isinstance(a, ast.Compare)]
+                ctx.check(bool(none_tests) and not truthy, "R17.5", w, cpn, f"{wname}: 'defined' decided by an is-not-None test",
+                          f"{wname} decides 'defined' by truthiness ({', '.join(norm(x) for x in truthy)}): a legal value 0 (FILETIME 0, attribute word 0) is written as undefined")
+            trues = []
+        else:
+            ctx.floor("R17.5", len(trues), 1, f"defined.append(True) in {wname}")
         for t in trues:
             facts = q.facts_at(w, t)
             none_tests = [cd for cd, pol in facts if q.is_none_test(cd) is not None and not q.is_none_test(cd)[1] and pol]
@@ -358,8 +374,15 @@ def r17_5(ctx: Ctx) -> None:
         for e in emits:
             facts = q.facts_at(w, e)
             vecs = {c.func.value.id for c in q.calls(w) if attr_tail(c) == "append" and isinstance(c.func.value, ast.Name) and c.args and isinstance(c.args[0], ast.Constant)
-                    and isinstance(c.args[0].value, bool)}
+                    and isinstance(c.args[0].value, bool)} | {n.targets[0].id for n in walk(w.node) if isinstance(n, ast.Assign) and isinstance(n.targets[0], ast.Name)
+                                                                and isinstance(n.value, ast.ListComp)}
             ok = any(pol and isinstance(cd, ast.Subscript) and norm(cd.value) in vecs for cd, pol in facts)
+            # for flag, f in zip(vector, files): if flag: ...
+            for lp in q.enclosing_loops(w, e):
+                if isinstance(lp, ast.For) and isinstance(lp.iter, ast.Call) and dotted(lp.iter.func) == "zip" and isinstance(lp.target, ast.Tuple):
+                    for t, a in zip(lp.target.elts, lp.iter.args):
+                        if isinstance(t, ast.Name) and isinstance(a, ast.Name) and a.id in vecs and any(pol and isinstance(cd, ast.Name) and cd.id == t.id for cd, pol in facts):
+                            ok = True
             ctx.check(ok, "R17.5", w, e, f"{wname}: value emitted iff defined[i]", f"{wname} emits a value not under defined[i]")
     for rname, key in (("_read_times", None), ("_read_attributes", "attributes"), ("_read_start_pos", "startpos")):
         r = fi.methods[rname]
